@@ -47,8 +47,11 @@ def sdv__str(glob_pattern: StringSdv) -> MatcherSdv[str]:
 
 
 def _match_path(model: Path, pattern: str) -> bool:
-    # an empty pattern matches no path (Path.match raises ValueError for it)
-    return pattern != '' and model.match(pattern)
+    try:
+        return model.match(pattern)
+    except ValueError:
+        # Path.match rejects a pattern without any component ('' and '.'): it matches no path
+        return False
 
 
 def _match_str(model: str, pattern: str) -> bool:
